@@ -269,6 +269,154 @@ inductive ReachD {V : Type} (c : Cfg) (L : Layout) (W : Work V) : State → Maps
   | adv {s s' : State} {m : Maps V} {i : Nat} :
       ReachD c L W s m → adv c s i = some s' → ReachD c L W s' (effect L W i (s.ph i) m)
 
+/-! ### the synchronisation skeleton of a worker (`sigma_filter`, `_sf2`), regenerated from the AST -/
+
+/-- what a statement of the worker does, as far as the protocol and the shared maps are concerned -/
+inductive SEv | wait | reset | abort | wBkg | rBkg | wRms | rRms
+  deriving DecidableEq, Repr
+
+/-- structured skeleton: `ifMask` branches on `domask`, `ifData` on anything else (either branch possible),
+    `loop` runs its body any number of times -/
+inductive Skel
+  | ev (e : SEv)
+  | skip
+  | ret
+  | raise_
+  | seq (a b : Skel)
+  | ifMask (thn els : Skel)
+  | ifData (thn els : Skel)
+  | loop (body : Skel)
+  /-- the body of an inlined helper function: its `return` only ends the helper -/
+  | call (body : Skel)
+  deriving Repr
+
+inductive SEnd | fall | ret | raised
+  deriving DecidableEq, Repr
+
+/-- every path through a skeleton for a given `domask`: (events, how the path ended).  A loop is unrolled
+    0, 1 and 2 times (enough: the conformance automaton ignores repeated work events, and a loop containing a
+    `wait` already differs between 0 and 1 iterations) -/
+def Skel.paths (m : Bool) : Skel → List (List SEv × SEnd)
+  | .ev e => [([e], .fall)]
+  | .skip => [([], .fall)]
+  | .ret => [([], .ret)]
+  | .raise_ => [([], .raised)]
+  | .seq a b =>
+    (a.paths m).flatMap (fun (ta, ea) =>
+      match ea with
+      | .fall => (b.paths m).map (fun (tb, eb) => (ta ++ tb, eb))
+      | e => [(ta, e)])
+  | .ifMask t e => if m then t.paths m else e.paths m
+  | .ifData t e => t.paths m ++ e.paths m
+  | .loop body =>
+    let once := body.paths m
+    let twice := once.flatMap (fun (ta, ea) =>
+      match ea with
+      | .fall => once.map (fun (tb, eb) => (ta ++ tb, eb))
+      | e => [(ta, e)])
+    ([], .fall) :: (once ++ twice)
+  | .call body => (body.paths m).map (fun (t, e) => (t, match e with | .ret => .fall | e => e))
+
+/-- the generated file carries the skeleton as a token list (so that it needs no import of this file):
+    `0 k` event k · `1` skip · `2` return · `3` raise · `4 a b` seq · `5 t e` ifMask · `6 t e` ifData · `7 b` loop · `8 b` call -/
+def sevOfNat : Nat → Option SEv
+  | 0 => some .wait | 1 => some .reset | 2 => some .abort | 3 => some .wBkg | 4 => some .rBkg | 5 => some .wRms | 6 => some .rRms
+  | _ => none
+
+def Skel.parse : Nat → List Nat → Option (Skel × List Nat)
+  | 0, _ => none
+  | _ + 1, [] => none
+  | f + 1, tag :: r =>
+    match tag with
+    | 0 => match r with
+      | k :: r' => (sevOfNat k).map (fun e => (Skel.ev e, r'))
+      | [] => none
+    | 1 => some (.skip, r)
+    | 2 => some (.ret, r)
+    | 3 => some (.raise_, r)
+    | 4 => match Skel.parse f r with
+      | some (a, r1) => match Skel.parse f r1 with
+        | some (b, r2) => some (.seq a b, r2)
+        | none => none
+      | none => none
+    | 5 => match Skel.parse f r with
+      | some (a, r1) => match Skel.parse f r1 with
+        | some (b, r2) => some (.ifMask a b, r2)
+        | none => none
+      | none => none
+    | 6 => match Skel.parse f r with
+      | some (a, r1) => match Skel.parse f r1 with
+        | some (b, r2) => some (.ifData a b, r2)
+        | none => none
+      | none => none
+    | 7 => match Skel.parse f r with
+      | some (a, r1) => some (.loop a, r1)
+      | none => none
+    | 8 => match Skel.parse f r with
+      | some (a, r1) => some (.call a, r1)
+      | none => none
+    | _ => none
+
+/-- a token list that does not parse becomes a skeleton that conforms to nothing -/
+def Skel.ofCode (c : List Nat) : Skel :=
+  match Skel.parse (c.length + 1) c with
+  | some (s, []) => s
+  | _ => .ev .reset
+
+def waits (t : List SEv) : Nat := t.count .wait
+
+/-- the protocol phases of a stripe as seen from its own code: 0 = pass 1, 1 = pass 2, 2 = masking -/
+def sevStep (m : Bool) (st : Nat) (e : SEv) : Option Nat :=
+  match st, e with
+  | 0, .wBkg => some 0
+  | 0, .wRms => some 0      -- a stripe's own noise rows are read by nobody else: harmless at any time
+  | 0, .rRms => some 0
+  | 0, .wait => some 1
+  | 1, .rBkg => some 1
+  | 1, .wRms => some 1
+  | 1, .rRms => some 1
+  | 1, .wait => if m then some 2 else none
+  | 2, .wBkg => some 2
+  | 2, .wRms => some 2
+  | 2, .rBkg => some 2
+  | 2, .rRms => some 2
+  | _, _ => none
+
+def sevRun (m : Bool) : Nat → List SEv → Option Nat
+  | st, [] => some st
+  | st, e :: rest => match sevStep m st e with
+    | some st' => sevRun m st' rest
+    | none => none
+
+/-- a complete (normally ending) path of a stripe conforms to the protocol model: the background map is written
+    only before the first barrier (and again, masked, after the second), read only between the barriers (and in
+    masking); the noise map (own rows, read by nobody else) may be touched at any time; barrier 1 is passed once, barrier 2 once iff
+    `domask`; no `reset()` / `abort()` on the way -/
+def conforms (m : Bool) (t : List SEv) : Bool := sevRun m 0 t == some (if m then 2 else 1)
+
+/-- hand fallback of the regenerated skeleton of `sigma_filter`, as tokens:
+    wBkg; wait; rBkg; wRms; if domask: (wait; wBkg; wRms); return -/
+def sigmaSkelHand : List Nat :=
+  [4, 0, 3, 4, 0, 0, 4, 0, 4, 4, 0, 5, 4, 5, 4, 0, 0, 4, 0, 3, 0, 5, 1, 2]
+
+/-- an `except` clause of `_sf2`: the class it catches, what it does, whether it ends by raising -/
+structure Handler where
+  cls : String
+  events : List SEv
+  raises : Bool
+  deriving DecidableEq, Repr
+
+/-- raw form used by the generated file: (class, event tokens, ends by raising) -/
+def Handler.ofRaw (r : String × List Nat × Bool) : Handler :=
+  { cls := r.1, events := r.2.1.map (fun k => (sevOfNat k).getD .reset), raises := r.2.2 }
+
+def sf2HandlersHand : List (String × List Nat × Bool) := [("BaseException", [2], true)]
+
+/-- every way out of `_sf2` with an exception aborts the barrier first, and every exception is caught:
+    the first clause that is not abort-and-raise must not exist, and some clause catches everything -/
+def handlersOK (hs : List Handler) : Bool :=
+  hs.all (fun h => h.events == [.abort] && h.raises) && hs.any (fun h => h.cls == "BaseException" || h.cls == "")
+
 /-! ### `try … finally` of the parent, as a small control-flow model -/
 
 /-- events of the parent that matter for shared memory -/
